@@ -9,6 +9,23 @@ class CMakeSyntaxError(SyntaxError):
     pass
 
 
+class LexerErrorListener(ErrorListener):
+    """
+    Listens for lexer errors (characters that cannot start or continue any token,
+    such as an unterminated string) and raises an exception instead of letting
+    the lexer drop the offending characters and continue.
+    """
+
+    def syntaxError(self, recognizer, offendingSymbol, line, column, msg, e):
+        """
+        :raises CMakeSyntaxError: Always, the rest of the file cannot be tokenized reliably.
+        """
+        s = CMakeSyntaxError()
+        s.lineno = f"{line}:{column}"
+        s.msg = msg
+        raise s
+
+
 class ParserErrorListener(ErrorListener):
     """
     Listens for parser errors and raises exceptions when they occur.
